@@ -1,4 +1,5 @@
 import SqlModel
+import SqlProofs.SplitValue
 open Sql
 
 def hexVal (ch : Char) : Nat :=
@@ -94,6 +95,15 @@ def cmdQuiet (s : Array Nat) : String :=
     let r := runFL defaultSplitCfg {} 0 ts
     s!"ok {quiet defaultSplitCfg {} 0 ts} {headNotEos defaultSplitCfg ts} {r.snd} {r.fst.isCreate} {r.fst.beginDepth} {r.fst.inCase}"
 
+/-- `views <hex text>`: the splitter's view (SqlProofs/SplitValue.lean `tokView`) of every non-whitespace token -/
+def cmdViews (s : Array Nat) : String :=
+  match lex defaultCfg s with
+  | .error e => "err " ++ e.name
+  | .ok ts =>
+    "ok " ++ " ".intercalate ((ts.filter (fun t => !t.isWhitespace)).map fun t =>
+      let v := Sql.tokView defaultSplitCfg t
+      s!"{showTT v.1}|{repr v.2.1}|{v.2.2.1}|{v.2.2.2}".replace " " "_")
+
 def handle (line : String) : String :=
   match (line.trimRight.splitOn " ") with
   | "re" :: rest => cmdRe (parseText rest)
@@ -101,6 +111,7 @@ def handle (line : String) : String :=
   | "split" :: rest => cmdSplit (parseText rest)
   | "csl" :: rest => cmdCsl rest
   | "quiet" :: rest => cmdQuiet (parseText rest)
+  | "views" :: rest => cmdViews (parseText rest)
   | "parse" :: rest => cmdParse rest
   | "group" :: rest => cmdGroup rest
   | "acc" :: rest => Sql.Driver.cmdAcc rest   -- accessors (SqlModel/AccDriver.lean), stream S-ACC
